@@ -151,7 +151,8 @@ def rule_sibling(ctx) -> RuleResult:
         res.inst(inst, nontrivial=True, ok=not leak)
         if leak:
             res.find(fn.cls.name if fn.cls else fn.module.short, fn.prop or fn.name,
-                     f"{unparse(call)[:60]} without dropping {arg} from the parent's children",
+                     # the key names a LOCAL by role (E), a parameter by its name: renaming a local does not change the finding's identity
+                     (lambda disp: f"{unparse(call)[:60].replace(arg, disp)} without dropping {disp} from the parent's children")(arg if arg in fn.params else "E"),
                      f"{fn.module.relpath}:{call.lineno}",
                      f"{fn.qualname} removes the stored form of {arg} but a path reaches the exit without removing it from "
                      "its parent's _children (ConcatenatedObject.remove_children does both): the parent still lists the removed "
@@ -372,13 +373,15 @@ def rule_file(ctx) -> RuleResult:
     sft = p.func("Workspace.str_from_type")
     t_sft = _kind_table(sft, sft.params[0] if sft.kind == "staticmethod" else sft.params[1])
     we = p.func("H5Writer.write_entity")
-    t_we = _kind_table(we, "entity")
+    t_we = _kind_table(we, we.params[2] if len(we.params) > 2 else "entity")
     wp = p.func("H5Writer.write_to_parent")
-    t_wp = _kind_table(wp, "entity")
+    t_wp = _kind_table(wp, wp.params[2] if len(wp.params) > 2 else "entity")
     fh = p.func("H5Writer.fetch_handle")
     t_fh = {}
     for n in ast.walk(fh.node):
-        if isinstance(n, ast.Assign) and isinstance(n.value, ast.Dict) and any(isinstance(t, ast.Name) and t.id == "hierarchy" for t in n.targets):
+        # the kind -> container table: a dict literal {<class>: "<container>"} bound to a local
+        if isinstance(n, ast.Assign) and isinstance(n.value, ast.Dict) and n.value.keys and all(isinstance(k, (ast.Name, ast.Attribute)) for k in n.value.keys) \
+                and all(isinstance(v, ast.Constant) and isinstance(v.value, str) for v in n.value.values):
             for k, v in zip(n.value.keys, n.value.values):
                 if isinstance(v, ast.Constant):
                     t_fh[unparse(k)] = v.value
